@@ -163,7 +163,8 @@ static void mc_sample(const char *sub, const char *cfg, const void *in, size_t l
 static uint64_t mc_cur_count;
 static inline void mc_current(const char *sub, const char *cfg, const void *in, size_t len) {
     /* automatic samples: the 8^k-th case of each worker (spread over the enumeration order) */
-    if (((++mc_cur_count) & (mc_cur_count - 1)) == 0 && (mc_cur_count & 0x9249249249249249ull) && mc_cur_count >= 8 && mc_sh->nsample < mc_sh->sample_quota)
+    mc_cur_count++;
+    if ((mc_cur_count & (mc_cur_count - 1)) == 0 && (mc_cur_count & 0x9249249249249249ull) && mc_cur_count >= 8 && mc_sh->nsample < mc_sh->sample_quota)
         mc_sample(sub, cfg, in, len, "case executed");
     if (mc_wid < 0) return;
     mc_case_t *c = &mc_sh->w[mc_wid].cur;
